@@ -45,11 +45,11 @@ theorem le_of_le_100 {n : Nat} (h : n ≤ 100) : n ≤ 16384 := by omega
 /-- Every phase but the first has exactly one clean line in flight towards a receiver at a line boundary. -/
 theorem phase_flight {cfg : Cfg} (hyp : Hyp cfg) {r : Nat} {L : State} (hp : Phase cfg r L) :
     (∃ l, FlightS cfg L l) ∨ (∃ l, FlightC L l) ∨
-    (L.s = AuthServer.Proto.init cfg.guid cfg.w0 ∧ L.c2s = 0 :: (lit "AUTH EXTERNAL" ++ [13, 10]) ∧ L.s2c = [] ∧
+    (r = 13 ∧ L.s = AuthServer.Proto.init cfg.guid cfg.w0 ∧ L.c2s = 0 :: (lit "AUTH EXTERNAL" ++ [13, 10]) ∧ L.s2c = [] ∧
       CBase L.c (authAt cfg.unix 0)) := by
   have cc := clean_const
   cases hp with
-  | start _ hc hs q1 q2 => exact Or.inr (Or.inr ⟨hs, q1, q2, hc⟩)
+  | start _ hc hs q1 q2 => exact Or.inr (Or.inr ⟨rfl, hs, q1, q2, hc⟩)
   | auth0 _ hc hb hs ha q1 q2 => exact Or.inl ⟨_, hb, q1, q2, cc.1.1, le_of_le_100 cc.1.2⟩
   | extChal _ uid e h1 h2 hc hb hs ha q1 q2 =>
     exact Or.inr (Or.inl ⟨_, hc.unauth, hc.buf, q1, q2, cc.2.1.1, le_of_le_100 cc.2.1.2⟩)
@@ -138,23 +138,30 @@ theorem feedC_partC {cfg : Cfg} {L : State} {l : Bytes} (hf : FlightC L l) (x y 
 
 /-! ## the invariant -/
 
-/-- What every reachable state looks like. -/
-inductive Inv (cfg : Cfg) : State → Prop
+/-- Upper bound on a line with its delimiter, plus one: the weight of one phase in the measure. -/
+def W : Nat := 16387
+
+/-- What every reachable state looks like.  The index is a MEASURE: it decreases with every move that delivers at
+least one byte (`inv_step`): the rank of the phase (weight `W` each, above everything the end game needs), then the
+number of bytes of the line in flight that are still queued. -/
+inductive Inv (cfg : Cfg) : Nat → State → Prop
   /-- a phase with `x` of the line in flight read by the bus, `rest ≠ []` still queued -/
   | midS (r : Nat) (L : State) (l x rest : Bytes) (hp : Phase cfg r L) (hf : FlightS cfg L l)
-      (h : x ++ rest = l ++ [13, 10]) (hr : rest ≠ []) : Inv cfg (partS L x rest)
+      (h : x ++ rest = l ++ [13, 10]) (hr : rest ≠ []) :
+      Inv cfg ((r + 1) * W + (cfg.hello.length + 8) + rest.length) (partS L x rest)
   /-- the same towards the client -/
   | midC (r : Nat) (L : State) (l x rest : Bytes) (hp : Phase cfg r L) (hf : FlightC L l)
-      (h : x ++ rest = l ++ [13, 10]) (hr : rest ≠ []) : Inv cfg (partC L x rest)
+      (h : x ++ rest = l ++ [13, 10]) (hr : rest ≠ []) :
+      Inv cfg ((r + 1) * W + (cfg.hello.length + 8) + rest.length) (partC L x rest)
   /-- nothing delivered yet -/
   | start (L : State) (hp : Phase cfg 13 L) (hs : L.s = AuthServer.Proto.init cfg.guid cfg.w0)
       (q1 : L.c2s = 0 :: (lit "AUTH EXTERNAL" ++ [13, 10])) (q2 : L.s2c = [])
-      (hc : CBase L.c (authAt cfg.unix 0)) : Inv cfg L
+      (hc : CBase L.c (authAt cfg.unix 0)) : Inv cfg (14 * W + (cfg.hello.length + 8) + 16) L
   /-- the client has sent BEGIN and the Hello call; the bus has read `x`, fewer than the 7 bytes of `BEGIN\r\n` -/
   | begin (L : State) (x rest : Bytes) (hb : BeginSent cfg L) (h : x ++ rest = lBEGIN ++ 13 :: 10 :: cfg.hello)
-      (hx : x.length < 7) : Inv cfg (partS L x rest)
+      (hx : x.length < 7) : Inv cfg (rest.length + 1) (partS L x rest)
   /-- both sides have authenticated -/
-  | done (st : State) (hd : Done cfg st) : Inv cfg st
+  | done (st : State) (hd : Done cfg st) : Inv cfg st.c2s.length st
 
 theorem partS_nil (L : State) (hb : L.s.buffer = []) : partS L [] L.c2s = L := by
   unfold partS
@@ -165,23 +172,41 @@ theorem partC_nil (L : State) (hb : L.c.buffer = []) : partC L [] L.s2c = L := b
   have : ({ L.c with buffer := [] } : CProto) = L.c := by cases hc : L.c; simp_all
   rw [this]
 
-/-- A phase reached at a line boundary satisfies the invariant. -/
-theorem inv_of_phase {cfg : Cfg} (hyp : Hyp cfg) {r : Nat} {L : State} (hp : Phase cfg r L) : Inv cfg L := by
-  rcases phase_flight hyp hp with ⟨l, hf⟩ | ⟨l, hf⟩ | ⟨hs, q1, q2, hc⟩
+theorem flightS_len {cfg : Cfg} {L : State} {l : Bytes} (hf : FlightS cfg L l) : L.c2s.length ≤ 16386 := by
+  rw [hf.q1]; have := hf.fits; rw [maxAuthLength_eq] at this; simp; omega
+
+theorem flightC_len {L : State} {l : Bytes} (hf : FlightC L l) : L.s2c.length ≤ 16386 := by
+  rw [hf.q1]; have := hf.fits; rw [maxAuth_eq] at this; simp; omega
+
+/-- A phase reached at a line boundary satisfies the invariant, with a measure below the next rank. -/
+theorem inv_of_phase {cfg : Cfg} (hyp : Hyp cfg) {r : Nat} {L : State} (hp : Phase cfg r L) :
+    ∃ n, n ≤ (r + 1) * W + (cfg.hello.length + 8) + 16386 ∧ Inv cfg n L := by
+  rcases phase_flight hyp hp with ⟨l, hf⟩ | ⟨l, hf⟩ | ⟨hr, hs, q1, q2, hc⟩
   · have := Inv.midS r L l [] L.c2s hp hf (by rw [hf.q1]; rfl) (by rw [hf.q1]; simp)
-    rwa [partS_nil L hf.base.buf] at this
+    rw [partS_nil L hf.base.buf] at this
+    exact ⟨_, by have := flightS_len hf; omega, this⟩
   · have := Inv.midC r L l [] L.s2c hp hf (by rw [hf.q1]; rfl) (by rw [hf.q1]; simp)
-    rwa [partC_nil L hf.buf] at this
-  · exact Inv.start L (Phase.start L hc hs q1 q2) hs q1 q2 hc
+    rw [partC_nil L hf.buf] at this
+    exact ⟨_, by have := flightC_len hf; omega, this⟩
+  · subst hr
+    exact ⟨_, by omega, Inv.start L hp hs q1 q2 hc⟩
 
-theorem inv_of_begin {cfg : Cfg} {L : State} (hb : BeginSent cfg L) : Inv cfg L := by
+theorem inv_of_begin {cfg : Cfg} {L : State} (hb : BeginSent cfg L) :
+    ∃ n, n ≤ cfg.hello.length + 8 ∧ Inv cfg n L := by
   have := Inv.begin L [] L.c2s hb (by rw [hb.q1]; rfl) (by simp)
-  rwa [partS_nil L hb.srv.base.buf] at this
+  rw [partS_nil L hb.srv.base.buf] at this
+  refine ⟨_, ?_, this⟩
+  rw [hb.q1]; simp [lBEGIN]; omega
 
-theorem inv_of_next {cfg : Cfg} (hyp : Hyp cfg) {r : Nat} {st : State} (h : Next cfg r st) : Inv cfg st := by
-  rcases h with ⟨r', _, hp⟩ | hb
-  · exact inv_of_phase hyp hp
-  · exact inv_of_begin hb
+theorem inv_of_next {cfg : Cfg} (hyp : Hyp cfg) {r : Nat} {st : State} (h : Next cfg r st) :
+    ∃ n, n ≤ r * W + (cfg.hello.length + 8) + 16386 ∧ Inv cfg n st := by
+  rcases h with ⟨r', hr, hp⟩ | hb
+  · obtain ⟨n, hn, hi⟩ := inv_of_phase hyp hp
+    refine ⟨n, ?_, hi⟩
+    have : (r' + 1) * W ≤ r * W := Nat.mul_le_mul_right W (by omega)
+    omega
+  · obtain ⟨n, hn, hi⟩ := inv_of_begin hb
+    exact ⟨n, by omega, hi⟩
 
 /-! ## the initial state -/
 
@@ -381,7 +406,7 @@ theorem inv_step {cfg : Cfg} (hyp : Hyp cfg) {st : State} (hi : Inv cfg st) (m :
       rw [feedS_nul st hs]
       have hp' := nulRead_phase st hc hs q1 q2
       have hq' : (nulRead st).c2s = lit "AUTH EXTERNAL" ++ [13, 10] := by show st.c2s.tail = _; rw [q1]; rfl
-      rcases phase_flight hyp hp' with ⟨l, hf⟩ | ⟨l, hf⟩ | ⟨hs', _⟩
+      rcases phase_flight hyp hp' with ⟨l, hf⟩ | ⟨l, hf⟩ | ⟨_, hs', _⟩
       · have hl : l ++ [13, 10] = y ++ z := by rw [← hf.q1, hq', hsplit]
         by_cases hy : y = []
         · simp only [hy, if_true]
@@ -530,7 +555,7 @@ theorem step_full_C {cfg : Cfg} {st : State} (h1 : st.c2s = []) (h : st.s2c ≠ 
 
 theorem step_full_phase {cfg : Cfg} (hyp : Hyp cfg) {r : Nat} {L : State} (hp : Phase cfg r L) :
     step cfg L (fullMove L) = lstep cfg L := by
-  rcases phase_flight hyp hp with ⟨l, hf⟩ | ⟨l, hf⟩ | ⟨_, q1, _, _⟩
+  rcases phase_flight hyp hp with ⟨l, hf⟩ | ⟨l, hf⟩ | ⟨_, _, q1, _, _⟩
   · rw [step_full_S (by rw [hf.q1]; simp), lstep_toS hf.q1]
   · rw [step_full_C hf.q2 (by rw [hf.q1]; simp), lstep_toC hf.q2]
   · rw [step_full_S (by rw [q1]; simp)]
